@@ -1033,3 +1033,110 @@ mod test {
         }
     }
 }
+
+/// Verification hooks (compiled only with `--cfg sourmash_verif`): thin public wrappers around the
+/// private `Datasets` codec, the registered RocksDB merge operator and the in-memory
+/// `HashToColor` reducer, so an external harness can drive arbitrary operand groupings and
+/// reduction orders through the real code. Nothing here changes behaviour.
+#[cfg(sourmash_verif)]
+pub mod verif_hooks {
+    use super::*;
+    use std::sync::atomic::{AtomicPtr, Ordering};
+
+    pub fn datasets_new(vals: &[Idx]) -> Datasets {
+        Datasets::new(vals)
+    }
+    pub fn datasets_from_slice(slice: &[u8]) -> Option<Datasets> {
+        Datasets::from_slice(slice)
+    }
+    pub fn datasets_as_bytes(d: &Datasets) -> Option<Vec<u8>> {
+        d.as_bytes()
+    }
+    pub fn datasets_union(a: &mut Datasets, b: Datasets) {
+        a.union(b)
+    }
+    pub fn datasets_extend(a: &mut Datasets, ids: &[Idx]) {
+        a.extend(ids.iter().copied())
+    }
+    pub fn datasets_len(a: &Datasets) -> usize {
+        a.len()
+    }
+    pub fn datasets_contains(a: &Datasets, v: Idx) -> bool {
+        a.contains(&v)
+    }
+    /// 0 = Empty, 1 = Unique, 2 = Many
+    pub fn datasets_variant(a: &Datasets) -> u8 {
+        match a {
+            Datasets::Empty => 0,
+            Datasets::Unique(_) => 1,
+            Datasets::Many(_) => 2,
+        }
+    }
+
+    /// Open a scratch DB with the crate's own column families, i.e. with the real
+    /// `merge_datasets` operator registered on HASHES and METADATA.
+    pub fn open_scratch_db(path: &Path) -> Arc<DB> {
+        let mut opts = db_options();
+        opts.create_if_missing(true);
+        opts.create_missing_column_families(true);
+        Arc::new(
+            DB::open_cf_descriptors(&opts, path, crate::storage::rocksdb::cf_descriptors())
+                .unwrap(),
+        )
+    }
+    pub const HASHES_CF: &str = crate::storage::rocksdb::HASHES;
+    pub const METADATA_CF: &str = crate::storage::rocksdb::METADATA;
+    pub const STORAGE_CF: &str = crate::storage::rocksdb::STORAGE;
+    pub const PROCESSED_KEY: &str = PROCESSED;
+    pub const MANIFEST_KEY: &str = MANIFEST;
+    pub const STORAGE_SPEC_KEY: &str = STORAGE_SPEC;
+    pub const VERSION_KEY: &str = VERSION;
+
+    pub type Reducible = (HashToColor, Colors);
+    pub fn h2c_new() -> Reducible {
+        (HashToColor::new(), Colors::default())
+    }
+    pub fn h2c_add_to(r: &mut Reducible, dataset_id: Idx, hashes: Vec<u64>) {
+        r.0.add_to(&mut r.1, dataset_id, hashes)
+    }
+    pub fn h2c_reduce(a: Reducible, b: Reducible) -> Reducible {
+        HashToColor::reduce_hashes_colors(a, b)
+    }
+    /// hash -> sorted dataset ids, sorted by hash
+    pub fn h2c_dump(r: &Reducible) -> Vec<(u64, Vec<Idx>)> {
+        let mut out: Vec<(u64, Vec<Idx>)> = r
+            .0
+             .0
+            .iter()
+            .map(|(h, c)| {
+                let mut ids: Vec<Idx> = r.1.indices(c).copied().collect();
+                ids.sort_unstable();
+                (*h, ids)
+            })
+            .collect();
+        out.sort();
+        out
+    }
+    pub fn h2c_ncolors(r: &Reducible) -> usize {
+        r.1.len()
+    }
+
+    /// Scheduling / crash point reached by the on-disk index build.
+    /// kind: 0 = before a HASHES merge, 1 = before the PROCESSED merge, 2 = before a
+    /// save_collection put, 3 = before compaction.
+    pub type PointFn = fn(kind: u8, dataset_id: u32, n: u64);
+    static POINT: AtomicPtr<()> = AtomicPtr::new(std::ptr::null_mut());
+    pub fn set_point_callback(f: Option<PointFn>) {
+        POINT.store(
+            f.map(|f| f as *mut ()).unwrap_or(std::ptr::null_mut()),
+            Ordering::SeqCst,
+        );
+    }
+    pub fn verif_point(kind: u8, dataset_id: u32, n: u64) {
+        let p = POINT.load(Ordering::SeqCst);
+        if !p.is_null() {
+            let f: PointFn = unsafe { std::mem::transmute(p) };
+            f(kind, dataset_id, n)
+        }
+    }
+}
